@@ -43,6 +43,10 @@ ASKS = [
 CSELECTS = [
     ("SELECT $this ?value WHERE { $this $PATH ?value . FILTER (?value = $arg) }", True),
     ("SELECT $this ?value WHERE { $this ex:p ?value . FILTER (isLiteral(?value)) }", False),
+    # no DISTINCT and a join over a variable that is not projected: the same solution comes back in several rows
+    ("SELECT $this ?value WHERE { $this ex:p ?value . ?anys ?anyp ?value }", False),
+    ("SELECT $this WHERE { $this ?anyp ?anyo }", False),
+    ("SELECT $this ?value WHERE { $this $PATH ?value . ?value ?anyp ?anyo }", True),
 ]
 # component validators SHACL-SPARQL forbids: the component's parameter is a pre-bound variable as well
 FORBIDDEN_ASKS = [
